@@ -1404,6 +1404,11 @@ def m_int_saturating(interp, path, args, ret_ty, callee):
     return IntV(z3.If(v > hi, hi, z3.If(v < lo, lo, v)), ty)
 
 
+@model(r"^<impl (i(8|16|32|64|128|size))>::(is_negative|is_positive)$", "sign test")
+def m_int_sign(interp, path, args, ret_ty, callee):
+    return BoolV(args[0].term < 0 if canon(callee).endswith("is_negative") else args[0].term > 0)
+
+
 @model(r"^<([iu](8|16|32|64|128|size)) as Default>::default$", "0")
 def m_int_default(interp, path, args, ret_ty, callee):
     return IntV(0, re.match(r"^<(\w+) as", canon(callee)).group(1))
